@@ -130,7 +130,7 @@ def ref_split(data, skip):
 def mk_packet(rng, dlen=None, **hdr):
     """Independent packet encoder (string formatting of the bit layout; no use of the library)."""
     if dlen is None:
-        dlen = rng.choice([1, 1, 2, 6, 7, 8, 13, 64, 255, 256, 257]) if rng.random() < 0.9 else rng.randrange(1, 2000)
+        dlen = rng.choice([1, 1, 2, 6, 7, 8, 13, 64, 255, 256, 257, 511, 512, 513, 768, 1024]) if rng.random() < 0.9 else rng.randrange(1, 2000)
     f = dict(ver=rng.randrange(8), typ=rng.randrange(2), shf=rng.randrange(2), apid=rng.randrange(2048),
              sf=rng.randrange(4), sc=rng.randrange(16384))
     f.update(hdr)
